@@ -21,6 +21,10 @@ RULE = (
     "prefix; a second identical call issues no mutating FS call. A RuntimeError must leave the existing view "
     "untouched. Non-trivial and distinct = distinct histories with >= 2 successful view updates over >= 2 jobs."
 )
+RULE += (
+    " " + 'Added later: unnormalised path specs; selections given as one-shot iterables or empty; an unrepresentable layout with a sibling that sorts between the conflicting paths.'
+    " In every third case DEBUG logging is effective for the package."
+)
 ASSUMPTIONS = [
     "When >= 2 jobs are selected and one of them has no distinguishing key at all, RuntimeError (view unchanged) or a "
     "structurally valid view are both accepted (the repository's own test expects RuntimeError).",
